@@ -94,3 +94,46 @@ func liblzmaAgrees(kind byte, dict uint32, data, plain []byte) string {
 	}
 	return ""
 }
+
+var (
+	lzEncOnce sync.Once
+	lzEnc     *liblzmaProc
+)
+
+// liblzmaEncode asks liblzma to encode data (format 'x' or 'a'); preset 255 = explicit lc/lp/pb/dict.
+// ok=false when the helper is absent.
+func liblzmaEncode(format byte, preset, check byte, lc, lp, pb int, dict uint32, data []byte) ([]byte, bool) {
+	lzEncOnce.Do(func() {
+		py, err := exec.LookPath("python3")
+		if err != nil || exec.Command(py, "-c", "import lzma").Run() != nil {
+			return
+		}
+		c := exec.Command(py, core.Root+"/tools/lzenc.py")
+		in, e1 := c.StdinPipe()
+		out, e2 := c.StdoutPipe()
+		if e1 != nil || e2 != nil || c.Start() != nil {
+			return
+		}
+		lzEnc = &liblzmaProc{cmd: c, in: in, out: bufio.NewReader(out)}
+	})
+	if lzEnc == nil {
+		return nil, false
+	}
+	lzEnc.mu.Lock()
+	defer lzEnc.mu.Unlock()
+	h := []byte{format, preset, check, byte(lc), byte(lp), byte(pb), 0, 0, 0, 0, 0, 0, 0, 0}
+	binary.LittleEndian.PutUint32(h[6:], dict)
+	binary.LittleEndian.PutUint32(h[10:], uint32(len(data)))
+	if _, err := lzEnc.in.Write(append(h, data...)); err != nil {
+		return nil, false
+	}
+	var l [4]byte
+	if _, err := io.ReadFull(lzEnc.out, l[:]); err != nil {
+		return nil, false
+	}
+	res := make([]byte, binary.LittleEndian.Uint32(l[:]))
+	if _, err := io.ReadFull(lzEnc.out, res); err != nil {
+		return nil, false
+	}
+	return res, len(res) > 0
+}
